@@ -42,7 +42,9 @@ the samples that went in.  Clause ids:
 import io
 import os
 import shutil
+import signal
 import tempfile
+import threading
 import time
 import warnings
 import wave
@@ -60,6 +62,7 @@ FNSIZE, ULONGSIZE, ENERGYSIZE, BITSHIFTSIZE, LPCQSIZE, LPCQUANT = 2, 2, 3, 2, 2,
 TYPE_AU1, TYPE_S16HL, TYPE_S16LH, TYPE_ULAW, TYPE_AU2 = 0, 3, 5, 7, 8
 NWRAP = 3
 N_QUICK, N_THOROUGH = 300, 8000
+DECODE_TIMEOUT_S = 10.0
 VECTORS = ["123_1pcbe", "123_1pcle", "123_1ulaw", "123_2pcbe", "123_2pcle", "123_2ulaw"]
 
 ASSUMPTIONS = [
@@ -592,19 +595,40 @@ def _spec_decode(stream, n, nchan_expected):
 # ======================================================================================
 # running the real decoder
 # ======================================================================================
+class _DecodeTimeout(Exception):
+    pass
+
+
+_TIMEOUTS = [0]
+
+
+def _on_alarm(signum, frame):
+    _TIMEOUTS[0] += 1
+    raise _DecodeTimeout("decoder did not terminate within %g s" % DECODE_TIMEOUT_S)
+
+
 def _decode_real(src, dtype=None):
     """-> (array | None, exception | None, [warning messages])"""
     from pydrobert.speech import util
 
-    with warnings.catch_warnings(record=True) as w:
-        warnings.simplefilter("always")
-        try:
-            out = util.read_signal(src, dtype=dtype, force_as="sph")
-            exc = None
-        except BaseException as e:  # noqa: B902 -- the class is what is being checked
-            if isinstance(e, (KeyboardInterrupt, SystemExit)):
-                raise
-            out, exc = None, e
+    guard = threading.current_thread() is threading.main_thread() and hasattr(signal, "setitimer")
+    if guard:  # a decoder that never terminates (e.g. reads zeros past the end) becomes a failure, not a hang
+        old_handler = signal.signal(signal.SIGALRM, _on_alarm)
+        signal.setitimer(signal.ITIMER_REAL, DECODE_TIMEOUT_S)
+    try:
+        with warnings.catch_warnings(record=True) as w:
+            warnings.simplefilter("always")
+            try:
+                out = util.read_signal(src, dtype=dtype, force_as="sph")
+                exc = None
+            except BaseException as e:  # noqa: B902 -- the class is what is being checked
+                if isinstance(e, (KeyboardInterrupt, SystemExit)):
+                    raise
+                out, exc = None, e
+    finally:
+        if guard:
+            signal.setitimer(signal.ITIMER_REAL, 0)
+            signal.signal(signal.SIGALRM, old_handler)
     return out, exc, [str(x.message) for x in w]
 
 
@@ -861,6 +885,7 @@ def run(tier: str, seed: int) -> dict:
     col = _common.Collector(PROPERTY, tier, seed, budget_s=45 if quick else 510)
     tmpdir = tempfile.mkdtemp(prefix="c13_")
     stats = _new_stats()
+    _TIMEOUTS[0] = 0
     n_total_samples = 0
     longest = 0
     per_clause = {}
@@ -905,11 +930,13 @@ def run(tier: str, seed: int) -> dict:
                 if errors_pending:
                     errors_pending = False
                     for ecase in _error_cases(seed, tier):
+                        if _TIMEOUTS[0] >= 3:
+                            break
                         col.case(ecase, nontrivial=True, sample=ecase if ecase["kind"] == "trunc" and len(col.samples) < 3 else None)
                         f = _check_error(ecase)
                         if f:
                             fail(f[0], ecase, f[1])
-                if n_rt >= target or col.out_of_time() or col.too_many_failures():
+                if n_rt >= target or col.out_of_time() or col.too_many_failures() or _TIMEOUTS[0] >= 3:
                     break
                 case = _random_case(seed, idx, tier)
                 idx += 1
